@@ -57,6 +57,9 @@ pub struct Case {
     /// run must fail, or the filter still be right - an unreadable ignore file must not silently mean "no rules"
     #[serde(default)]
     pub ignore_fault: Option<(u8, bool)>,
+    /// spelling of the source arguments: 0 name, 1 name//, 2 ./name, 3 name/  (same mapping, same verdicts)
+    #[serde(default)]
+    pub src_spell: u8,
 }
 
 pub fn strategy() -> BoxedStrategy<Case> {
@@ -79,8 +82,9 @@ pub fn strategy() -> BoxedStrategy<Case> {
         prop::option::weighted(0.3, (prop::collection::vec(tent, 2..12), prop::collection::vec(pat, 0..6))),
         prop::bool::weighted(0.4),
         prop::option::weighted(0.15, (0u8..3, any::<bool>())),
+        prop_oneof![3 => Just(0u8), 1 => Just(1u8), 1 => Just(2u8), 1 => Just(3u8)],
     )
-        .prop_map(|(tree, pats, flags, use_flag, links, src_name, second, deref, ignore_fault)| Case { tree, pats, flags, use_flag, links, src_name, second, deref, ignore_fault })
+        .prop_map(|(tree, pats, flags, use_flag, links, src_name, second, deref, ignore_fault, src_spell)| Case { tree, pats, flags, use_flag, links, src_name, second, deref, ignore_fault, src_spell })
         .boxed()
 }
 
@@ -327,7 +331,15 @@ pub fn judge(c: &Case, rec: &mut Rec) -> Verdict {
     }
     args.push(s("-r"));
     for (dir, _) in &srcs {
-        args.push(dir.clone());
+        args.push(match c.src_spell % 4 {
+            1 => [dir.as_slice(), b"//"].concat(),
+            2 => [b"./".as_slice(), dir.as_slice()].concat(),
+            3 => [dir.as_slice(), b"/"].concat(),
+            _ => dir.clone(),
+        });
+    }
+    if c.src_spell % 4 != 0 {
+        rec.class(format!("source-spelling|{}", ["name", "name//", "./name", "name/"][c.src_spell as usize % 4]));
     }
     args.push(s("d"));
     struct Out {
@@ -425,7 +437,7 @@ impl Check for C17 {
         "C17"
     }
     fn rule(&self) -> String {
-        "proptest-generated source trees (3-21 entries over 12 names: files, directories incl. empty ones, hidden names, symlinks to files and to directories, depth <= 3) with a root .gitignore of 1-8 lines from a grammar instantiated over names that occur in the tree (and one that does not): literal, *.ext, prefix*, *suffix, ?, n?, **/n, n/**, n/ (directory only), /n (anchored), dir/n, each optionally negated with !, comments and blank lines (never a pattern matching .gitignore itself, no nested .gitignore); optionally a second source directory with its own tree and .gitignore; source directories named from the same name pool (so entries named like their source occur); both drivers; with and (15%) without --gitignore; on trees without any symbolic link additionally (40%) with -L, which must not change the outcome; in a seventh of the cases the first stat / open / read of the first source's .gitignore fails with EIO or EACCES (the run must fail, or the filter still be right). Oracle: git itself - `git check-ignore --no-index -v -n -z --stdin` on a throw-away bare git-dir with the source as work tree gives the verdict per entry (excluded iff the entry or an ancestor matches a non-negated last pattern), cross-checked against `git ls-files --others --exclude-standard` (a case where git disagrees with itself is dropped and counted); exit 0 => the set of relative paths in the destination equals the non-excluded set (everything without the flag). Non-trivial: flag on, >=1 entry excluded and >=1 copied; distinct by case hash.".into()
+        "proptest-generated source trees (3-21 entries over 12 names: files, directories incl. empty ones, hidden names, symlinks to files and to directories, depth <= 3) with a root .gitignore of 1-8 lines from a grammar instantiated over names that occur in the tree (and one that does not): literal, *.ext, prefix*, *suffix, ?, n?, **/n, n/**, n/ (directory only), /n (anchored), dir/n, each optionally negated with !, comments and blank lines (never a pattern matching .gitignore itself, no nested .gitignore); optionally a second source directory with its own tree and .gitignore; source directories named from the same name pool (so entries named like their source occur); both drivers; with and (15%) without --gitignore; source arguments spelled name, name//, ./name or name/; on trees without any symbolic link additionally (40%) with -L, which must not change the outcome; in a seventh of the cases the first stat / open / read of the first source's .gitignore fails with EIO or EACCES (the run must fail, or the filter still be right). Oracle: git itself - `git check-ignore --no-index -v -n -z --stdin` on a throw-away bare git-dir with the source as work tree gives the verdict per entry (excluded iff the entry or an ancestor matches a non-negated last pattern), cross-checked against `git ls-files --others --exclude-standard` (a case where git disagrees with itself is dropped and counted); exit 0 => the set of relative paths in the destination equals the non-excluded set (everything without the flag). Non-trivial: flag on, >=1 entry excluded and >=1 copied; distinct by case hash.".into()
     }
     fn assumptions(&self) -> Vec<String> {
         vec!["git 2.39 semantics are the reference for 'git's pattern semantics'".into()]
@@ -453,6 +465,6 @@ impl Check for C17 {
         }
     }
     fn required_classes(&self, _tier: Tier) -> Vec<String> {
-        ["feature|literal", "feature|star", "feature|qmark", "feature|**/", "feature|/**", "feature|dir-only", "feature|anchored", "feature|path", "neg=true", "flag=false", "links=true", "srcs=2", "entry-named-like-its-source", "dereference-on-a-link-free-tree|flag=true", "ignore-file-fault|Open|fired=true", "ignore-file-fault|Read|fired=true", "ignore-file-fault|Stat|fired=true"].iter().map(|s| s.to_string()).collect()
+        ["feature|literal", "feature|star", "feature|qmark", "feature|**/", "feature|/**", "feature|dir-only", "feature|anchored", "feature|path", "neg=true", "flag=false", "links=true", "srcs=2", "entry-named-like-its-source", "dereference-on-a-link-free-tree|flag=true", "ignore-file-fault|Open|fired=true", "ignore-file-fault|Read|fired=true", "ignore-file-fault|Stat|fired=true", "source-spelling|name//", "source-spelling|./name"].iter().map(|s| s.to_string()).collect()
     }
 }
